@@ -26,6 +26,7 @@ their proofs by the `_fixed` theorems).
 -/
 import Olla.Model.Provider
 import Olla.Spec.C11
+import Olla.Spec.State
 
 namespace Olla.Props.C11
 open Olla.Gen.Providers Olla.Model.Provider Olla.Spec.C11
@@ -289,5 +290,15 @@ example : listing "lm-studio" demo = ["d"] := by decide
 example : TypesValid demo := by unfold TypesValid; decide
 example : Narrows (fun l => l.filter (·.name != "B")) := by
   intro l e h; exact (List.mem_filter.mp h).1
+
+/-! ### tie: no process-wide state on the modelled path
+
+The theorems above are about single calls (or the history of one object). They cover every
+request of a running process only if a call reaches no state that outlives it besides that
+object. `Olla.Gen.State` is re-read from the source on every run: the package-level variables
+reachable from each function inside its package that the package changes after initialisation. -/
+theorem C11_tie_no_process_wide_state :
+    Olla.Spec.State.reachesOnly "anthropic.TransformResponse" [] = true ∧
+    Olla.Spec.State.reachesOnly "anthropic.TransformStreamingResponse" [] = true := by decide
 
 end Olla.Props.C11
